@@ -16,6 +16,8 @@ struct InnerTimer {
     start: Option<Instant>,
     elapsed: Duration,
     subtimers: SubTimersMap,
+    #[cfg(feature = "verif")]
+    vstart: u64,
 }
 
 impl InnerTimer {
@@ -27,10 +29,14 @@ impl InnerTimer {
 
     fn start(&mut self) {
         self.start = Some(Instant::now());
+        #[cfg(feature = "verif")]
+        (self.vstart = crate::verif_hooks::vclock_now());
     }
 
     fn stop(&mut self) {
         self.elapsed += self.start.unwrap().elapsed();
+        #[cfg(feature = "verif")]
+        (self.elapsed += crate::verif_hooks::vclock_since(self.vstart));
         self.start = None;
     }
 
@@ -39,6 +45,8 @@ impl InnerTimer {
         //subtimers if this timer appears active
         if let Some(instant) = self.start {
             self.elapsed += instant.elapsed();
+            #[cfg(feature = "verif")]
+            (self.elapsed += crate::verif_hooks::vclock_since(self.vstart));
             self.subtimers.suspend();
         }
     }
@@ -48,6 +56,8 @@ impl InnerTimer {
         //just refresh start time to now.
         if self.start.is_some() {
             self.start = Some(Instant::now());
+            #[cfg(feature = "verif")]
+            (self.vstart = crate::verif_hooks::vclock_now());
             self.subtimers.resume();
         }
     }
